@@ -14,8 +14,9 @@ EXACT_PARTS = {"ptm1", "ptm2", "ptm3", "ptm4", "bbox"}
 
 def isel_aux(aux, xr, idx):
     out = dict(aux)
-    for k in ("wspd", "wdir", "dpt"):
-        out[k] = aux[k].isel({d: i for d, i in idx.items() if d in aux[k].dims})
+    for k in ("wspd", "wdir", "dpt", "other"):
+        if k in aux:
+            out[k] = aux[k].isel({d: i for d, i in idx.items() if d in aux[k].dims})
     return out
 
 
